@@ -722,9 +722,17 @@ Qed.
 Lemma types_accb_wf : types_accb = true -> vocab_wf.
 Proof. unfold types_accb. intros H. apply andb_prop in H. destruct H as [W _]. now apply vocab_wfb_sound. Qed.
 
+Lemma pyws_bound c : pyws c = true -> c <= 12288.
+Proof.
+  unfold pyws. intros H. repeat (apply orb_prop in H; destruct H as [H|H]);
+  repeat (apply andb_prop in H; destruct H as [H ?]);
+  repeat match goal with X : (_ <=? _) = true |- _ => apply N.leb_le in X | X : (_ =? _) = true |- _ => apply N.eqb_eq in X end; lia.
+Qed.
+
 Section Real.
 Hypothesis Hacc : types_accb = true.
 Hypothesis Hbond : bonds_okb = true.
+Hypothesis Hspec : bond_spec_okb = true.
 
 Lemma real_vocab_wf : vocab_wf.
 Proof. exact (types_accb_wf Hacc). Qed.
@@ -795,7 +803,7 @@ Theorem real_preserved wq m m' : wf_real_mol m = true -> read RV wq (write RV wq
   /\ length (m_bonds m') = length (m_bonds m)
   /\ (forall k b, nth_error (m_bonds m) k = Some b ->
         exists b', nth_error (m_bonds m') k = Some b' /\ b_a1 b' = b_a1 b /\ b_a2 b' = b_a2 b
-          /\ (forall name tk, In (name, tk) bond_spec -> bond_spec_okb = true ->
+          /\ (forall name tk, In (name, tk) bond_spec ->
                 pos_of name btype_names 0 = Some (b_ty b) -> b_ty b' = b_ty b)).
 Proof.
   intros Hwf Hr. rewrite (real_roundtrip wq m Hwf) in Hr. injection Hr as <-.
@@ -815,7 +823,7 @@ Proof.
     + repeat split; try reflexivity. intros ->. apply fx_val_canon.
   - intros k b Hk. exists (norm_bond RV b). split; [now rewrite nth_error_map, Hk|].
     unfold norm_bond. cbn [b_a1 b_a2 b_ty]. repeat split; try reflexivity.
-    intros name tk Hin Hspec Hpos. destruct (bond_spec_sound Hspec name tk Hin) as [b0 [Hp [Hg Hs]]].
+    intros name tk Hin Hpos. destruct (bond_spec_sound Hspec name tk Hin) as [b0 [Hp [Hg Hs]]].
     rewrite Hpos in Hp. injection Hp as <-. cbn [V_bget V_bset RV real_vocab]. now rewrite Hg, Hs.
 Qed.
 End Real.
